@@ -233,3 +233,27 @@ META = {
 
 for _p in ("C05", "C06", "C13", "C14"):
     crash_matters(PLANS[_p])
+
+# ---- Miri lanes (DESIGN 6.5): the same workload functions, a few runs per shard process (the interpreter costs 2-50 s per run), on the kinds Miri can
+# interpret (not the mmap log channel). A Miri error (use-after-free, double free, dangling reference, uninitialised read, invalid value, out-of-bounds
+# pointer arithmetic) or a crash of the interpreted harness is a violation of the property whose workload produced it.
+def miri(secs, lane="ser", **kw): return dict(flavor="miri", lane=lane, secs=secs, shards=16, crash_is_violation=True, **kw)
+MIRI_LANES = {   # property: (quick lane | None, thorough lane)
+    "C13": (miri(25), miri(300)),
+    "C14": (miri(25), miri(300)),
+    "C08": (miri(25, lane="free"), miri(300, lane="free")),
+    "C19": (miri(15), miri(120)),
+    "C05": (None, miri(420)),
+    "C03": (None, miri(300)),
+    "C01": (None, miri(300)),
+    "C02": (None, miri(400)),
+    "C10": (None, miri(150, lane="free")),
+    "C16": (None, miri(300)),
+    "C15": (None, miri(150, lane="free")),
+}
+for _p, (_q, _t) in MIRI_LANES.items():
+    if _q: PLANS[_p]["quick"].append(_q)
+    PLANS[_p]["thorough"].append(_t)
+    PLANS[_p]["assumptions"].append("Miri lane: aarch64 target, data-race detector off, Tree Borrows (DESIGN 0.1, 6.5); the interpreter sees only the few hundred small runs it is given")
+    META[_p]["engine"] += "+miri"
+    META[_p]["technique"] += "; the same workload under the Miri interpreter (undefined-behaviour monitor: use-after-free, double free, dangling references, uninitialised reads)" + ("" if _q else " in the thorough tier")
